@@ -45,6 +45,17 @@ namespace AIToolbox::MDP {
             Policy(size_t s, size_t a);
 
             /**
+             * @brief Copy constructor.
+             *
+             * The base PolicyWrapper holds a reference to the policy matrix;
+             * the copy must refer to its own matrix, not to the one of the
+             * copied Policy (which the implicit copy constructor would do).
+             *
+             * @param p The policy which is being copied.
+             */
+            Policy(const Policy & p);
+
+            /**
              * @brief Basic constructor.
              *
              * This constructor simply copies policy probability values
